@@ -284,7 +284,9 @@ def run(ctx):
             except ValueError:
                 valid = False
             cells.append(text)
-            expect.append(None if ("YY" in layout and "YYYY" not in layout and not (1969 <= y <= 2068)) else valid)
+            # (a layout naming the year twice - YYYY and YY - says nothing definite about which one counts: no expectation, model against code only)
+            two_years = "YYYY" in layout and "YY" in layout.replace("YYYY", "")
+            expect.append(None if two_years or ("YY" in layout and "YYYY" not in layout and not (1969 <= y <= 2068)) else valid)
             if rnd.random() < 0.3 and text:
                 k = rnd.randrange(len(text))
                 cells.append(text[:k] + rnd.choice("x9 -") + text[k + 1:]); expect.append(None)
